@@ -53,6 +53,21 @@ CHECKS = {
             'Without any reference semantics: every sequence RandomGen can return is a model of the formula IterateSATGen '
             'solves, and z3 proves the formula has no trial assignment that prints as a sequence outside RandomGen\'s image.',
             'Bounded to designs with <=5000/60000 candidates accepted by both strategies.', '6 C07'),
+    'C08': (OT, 'B+A', 'CrossHair symbolic execution of the real constructors and compilation with the integer parameters '
+                       'symbolic; concrete synthesis of every corpus design with the four strategies (UniGen in a child process)',
+            'For each design shape the run-length k, Pin index, MinimumTrials or window start is symbolic and CrossHair '
+            'confirms over all paths that constructor + build_cnf + UCSolutionEnumerator raise nothing but documented '
+            'refusals; every corpus descriptor is synthesised with IterateSATGen, RandomGen, CMSGen and UniGen and any '
+            'other exception or a dead interpreter is a violation.',
+            'The quantifier over designs is enumeration; parameters are symbolic per shape within small ranges. RandomGen '
+            'runs over the per-design time limit are inconclusive.', '6 C08'),
+    'C14': (OT, 'A', 'the real allocation table as a z3 function of symbolic (trial, factor, level): injectivity, image, '
+                     'order and auxiliary separation decided by z3; the real decoder run on exhaustive/single-cell one-hot assignments',
+            'Per design the table read off _encode_variable is proved injective and onto 1..variables_per_sample(), '
+            'increasing in the trial, consistent with factor_variables_for_trial / build_variable_lists / decode_variable, '
+            'with every other formula variable above it; Gen.decode is executed on all one-hot assignments of small blocks '
+            'and on all single-cell changes of larger ones.',
+            'The decode part is concrete execution (exhaustive only for blocks with <=3000 assignments).', '6 C14'),
     'C09': (OT, 'C+A', 'SAT enumeration of the real formula and exhaustive candidate enumeration give `available`; the real '
                        'strategies are called with 4 requested sizes',
             'IterateSATGen, RandomGen and IterateGen return min(requested, available) pairwise distinct assignments; equal '
